@@ -16,7 +16,8 @@ package main
 // and ZERO invocations. A panic escaping vm.Execute is always a violation.
 //
 // Phases
-//   fixed     deterministic cases (one per known or repaired finding + sanity rows)
+//   fixed     deterministic cases (one per known or repaired finding + sanity rows;
+//             case 10, recursive Go types, is in c11_r6.go)
 //   conv      complete matrix (script/Go source value) x (target type) under
 //             the single-argument forms of all call shapes
 //   roundtrip every Go value kind x every route back to Go (read, container,
@@ -29,6 +30,7 @@ package main
 //   named, empty, cbconc: see c11_ext.go
 //   selector, slotarg: see c11_r4.go
 //   ptrarg, cbvar, deepstore: see c11_r5.go
+//   gocall, twins, numedge: see c11_r6.go
 //
 // Outside the statement (kept out of the generator's domain or accepted both
 // ways; each place is marked UNSPECIFIED):
@@ -81,6 +83,7 @@ import (
 
 type C11MyInt int64
 type C11MyStr string
+type C11MyU64 uint64
 
 type c11Err struct{ Msg string }
 
@@ -245,11 +248,14 @@ var c11BaseTypes = []reflect.Type{
 	reflect.TypeOf(map[string]map[string]int64(nil)), reflect.TypeOf(map[bool]int64(nil)),
 	reflect.TypeOf((func(int64) int64)(nil)), reflect.TypeOf((func(int64, string) (int64, error))(nil)), reflect.TypeOf((func())(nil)),
 	reflect.TypeOf((chan int64)(nil)),
+	// round 6 (appended, so that the index-based picks above stay what they were): the
+	// unsigned targets whose range exceeds int64's, a named one, and containers of them
+	reflect.TypeOf(uintptr(0)), reflect.TypeOf(C11MyU64(0)), reflect.TypeOf([]uint64(nil)), reflect.TypeOf(map[string]uint64(nil)),
 }
 
 // extra kinds that only travel (round trip), never a conversion target
 var c11TravelTypes = []reflect.Type{
-	reflect.TypeOf([2]int64{}), reflect.TypeOf(uintptr(0)), reflect.TypeOf(complex128(0)), reflect.TypeOf(C11Inner{}),
+	reflect.TypeOf([2]int64{}), reflect.TypeOf(complex64(0)), reflect.TypeOf(complex128(0)), reflect.TypeOf(C11Inner{}),
 	reflect.TypeOf((*C11Pair)(nil)), reflect.TypeOf((chan string)(nil)), reflect.TypeOf((**int64)(nil)),
 	reflect.TypeOf(struct{ X, Y int64 }{}), reflect.TypeOf([]C11Pair(nil)), reflect.TypeOf(map[int8]*C11S(nil)),
 }
@@ -742,6 +748,14 @@ func c11Sources() []c11Src {
 	lit(`{"a": []}`, `{"a": {}}`, "[[], [1]]", "[{}]", `{"a": [], "b": nil}`)
 	bind([]int8{}, []int8(nil), map[string]int8{}, map[string]int8(nil), [][]int8{{}, nil}, map[string][]int8{"e": {}, "n": nil},
 		C11Ints{3, 4}, C11Dict{"d": 5}, C11Color("red"), C11Cnt(9))
+	// round 6 (appended: the positions of the sources above are used by fixed rows):
+	// numbers at the edges of the 64-bit integer ranges. A float64 in (2^63, 2^64) is
+	// inside the range of uint64 / uint / uintptr and outside int64's; 2^63 and 2^64
+	// themselves, the neighbours of 2^63 below and above, values with low bits set
+	// (2^63+2048, 2^64-2048), a product that leaves the int64 range, fractions.
+	lit("9223372036854777856.0", "1e19", "1.2e19", "18446744073709549568.0", "9223372036854775807 * 1.5", "9223372036854775808.0", "9223372036854774784.0",
+		"18446744073709551616.0", "-9223372036854775808.0", "4294967296.5", "255.9", "-0.5",
+		"[1e19, 1]", "[9223372036854777856.0, 18446744073709549568.0]", `{"a": 1.2e19}`, `{"a": 1, "b": 18446744073709549568.0}`)
 	return s
 }
 
@@ -2404,6 +2418,8 @@ func c11PhaseFixed(c *wk.Case) {
 			(&c11Call{callee: "f", ft: fn((func(int64, ...[2]int64) int64)(nil)), pre: []c11Val{one, a}, rec: rec}).judge(c, ce.e, "call", 0)
 			(&c11Call{callee: "f", ft: fn((func([][2]int64) int64)(nil)), pre: []c11Val{c11ListOf([]c11Val{a})}, rec: rec}).judge(c, ce.e, "call", 0)
 		}
+	case 10: // recursive Go types (type Tree []Tree): finite script values, and - once c11PendingFix_cyclicToRecursive is false - values that contain themselves
+		c11r6FixedCyclic(c, ce, rec)
 	}
 }
 
@@ -2418,7 +2434,7 @@ type C11Outer struct {
 	Own int64
 }
 
-const c11NFixed = 10
+const c11NFixed = 11
 
 func init() {
 	nAll := len(c11Types) + len(c11TravelTypes)
@@ -2428,12 +2444,14 @@ func init() {
 			nCalls, nMember, nCb, rtRounds := 1000, 150, 300, 2
 			nSel, nSlot := 10, 200
 			nPtr, nCbv, nDeep := c11r5Dims, 2, 60
+			nGo := 40
 			// the -race flavour of cbconc costs a second build of the worker: thorough tier only
 			nNamed, nConc, nConcRace, namedChunk := len(c11NamedTypes), 3*len(c11ConcVariants), 0, 1
 			if tier == "thorough" {
 				nCalls, nMember, nCb, rtRounds = 40000, 6000, 15000, 20
 				nSel, nSlot = 300, 5000
 				nPtr, nCbv, nDeep = 40*c11r5Dims, 100, 3000
+				nGo = 3000
 				nNamed, nConc, nConcRace, namedChunk = 25*len(c11NamedTypes), 60*len(c11ConcVariants), 5*len(c11ConcVariants), 5
 			}
 			plan := fw.Plan{
@@ -2450,6 +2468,9 @@ func init() {
 					"ptrarg: calls with `&x` arguments (the address of a script variable): 9 callee kinds (manufactured function, the same through a variable, four methods with pointer parameters through a pointer holder and a value holder, a method value, a function with a variadic tail of pointers) x plain / spread at the last parameter / spread over several parameters x variable at top level / captured by a closure / local to a function x &x, &(x), (&x) - every combination once per " + strconv.Itoa(c11r5Dims) + " cases, 4 calls per case with PRNG signatures (1-3 pointer parameters among ordinary ones, " + strconv.Itoa(len(c11r5Pointees)) + " pointee types), PRNG variable contents, stored values and ordinary arguments; the Go side records the pointee it meets, stores a different value through the pointer, and the script reads the variable after the call. " +
 					"cbvar: " + strconv.Itoa(len(c11r5CbTypes)) + " variadic func types x script function with one parameter for the tail / variadic script function x 0-3 tail values Go passes, plus callbacks returning more values than declared (complete per case, PRNG values). " +
 					"deepstore: a Go struct bound by pointer (nested structs held by value, arrays of arrays, arrays and typed slices of structs, pointers, a map of pointers; PRNG contents) reached through 4 holders; 40 stores per case (=, +=, ++) at PRNG paths of 1-7 steps down to a string / int64 / int / float64 / bool leaf, each compared with the same store made by reflect on a twin of the root (the whole structure is compared, and the value read back). " +
+					"gocall: scripts of 3-8 statements - `go f(..)`, plain `r = f(..)`, `for i = 0; i < 3; i++ { go f(.., k + i, ..) }` - over three manufactured Go functions (PRNG signatures, 1/3 variadic) and four methods of a Go struct (pointer and value receiver, through a pointer and a value), plain and spread, the callee of the previous statement re-used half of the time, arguments pairwise distinct over the script; half of the cases with GOMAXPROCS(1); the host waits for the started calls and compares what every Go function received with the calls written for it (6 scripts per case). " +
+					"twins: groups of DISTINCT Go types with the same printed name (struct types declared with the same name in different functions, with other field positions / field types / embedded method sets; *text/template.Template and *html/template.Template) used one after the other in one process, every order once (one process per case): every exported field read through 4 holders, every int64 / string / float64 / bool field written through 3 pointer holders, every recording method called through 3 holders; the templates through Name, Lookup, Execute, ExecuteTemplate and the Tree field against Go's own calls. " +
+					"numedge: every script-number source of the conv matrix (edges of all integer ranges up to 2^64, fractions, negative, NaN, infinities) x " + strconv.Itoa(c11r6NumsT.NumField()) + " numeric target types (all widths, uintptr, named) as the result of a callback (alone and as first of two results), stored into a field through a pointer, and rotated through the parameters and variadic tail of two methods (complete; one case per target type). " +
 					"An evaluation is non-trivial when the statement decides the case (conversion exists for all arguments, or none exists for one); distinct = distinct (Go signature, source text, argument values).",
 				Assumptions: []string{"reflect.Type.AssignableTo/ConvertibleTo and reflect.Value.Convert are 'Go's own conversion'",
 					"string->byte/rune parameters, pointer->other-pointer conversions, arrays, over-long spread lists, VM-protocol-typed Go functions are outside the statement and not judged",
@@ -2461,6 +2482,9 @@ func init() {
 					"ptrarg: `&x` supplies the address of the variable x, so a value the Go function stores through it is what the script reads from x afterwards, in every call shape; for a pointee type other than interface{} (the script-side type of &x is *interface{}; pointer -> other pointer is outside the statement) a refusal with zero invocations is accepted too, an invocation must meet Go's conversion of x's value as pointee; whether x then has the stored value's type or the stored value converted back to its former numeric/string type is not judged; addresses of non-variables (&a[0], &m.v), pointers taken earlier (p = &x; f(p)), &x inside a spread list, go f(&x) are not generated",
 					"deepstore: every generated step is one Go can assign through (field of an addressable struct, element of an addressable array or of a slice, pointer, pointer-valued map entry); a leaf of type int stored from an int64 needs a conversion: an error with the Go value unchanged is accepted",
 					"cbvar: a script function with one parameter in the tail position receives the tail as one list, a variadic script function the values themselves; whether surplus results of a callback are an error or dropped is not judged",
+					"gocall: a go statement is a call that does not wait; the Go function is invoked once with the arguments written at the statement, whatever the script does next. WHEN it is invoked is not judged; the host waits until every call has arrived or every goroutine the script started has ended (runtime.NumGoroutine back at its value before the script), and a call that has not arrived by then is reported as never made; goroutines still alive after 20 s make the case inconclusive. `go` calls of script functions and `go f(&x)` are not generated",
+					"twins: which member a name denotes depends on the type of the value at hand, never on how that type prints; names that are no member of the type at hand are not generated; for a float64 -> integer conversion whose value does not fit the target type Go's result is implementation-specific: numedge and the conv matrix take reflect.Value.Convert on this machine as the reference, as for every other conversion",
+					"kept out of the domain until /repo is repaired (constant c11PendingFix_cyclicToRecursive in c11_r6.go, reported in C11-r6-genuine.md): a script list or map that contains itself handed to a parameter of a recursive Go type (fatal stack overflow of the host)",
 					"kept out of the domain until /repo is repaired or the behaviour is decided (constants c11PendingFix_* in c11_r5.go, reported in C11-r5-genuine.md): `defer f(&x)` (the store is lost), non-nil pointers read back by a for-in loop over a list (the loop binds the pointee), a variadic script function as callback of a variadic func type (the tail arrives as one list)",
 					"kept out of the domain until /repo is repaired (constants c11PendingFix_* in c11_r4.go, reported in C11-r4-genuine.md): a pointer-receiver method that hides a promoted field called on a struct VALUE; a nil of a non-empty interface type read from an addressable typed slot and passed to an interface-typed parameter it is assignable to",
 					"kept out of the domain until /repo is repaired (constants c11PendingFix_* in c11_ext.go, reported in C11-genuine.md): pointer-receiver methods of non-struct named types on non-pointer values, a spread list that has to fill fixed parameters of a variadic function, array-typed parameters, fields promoted through a nil embedded pointer"},
@@ -2479,6 +2503,9 @@ func init() {
 					{Name: "ptrarg", Cases: nPtr, Chunk: 27, TimeoutS: 900, MemMB: 3072},
 					{Name: "cbvar", Cases: nCbv, Chunk: 25, TimeoutS: 300},
 					{Name: "deepstore", Cases: nDeep, Chunk: 30, TimeoutS: 600},
+					{Name: "gocall", Cases: nGo, Chunk: 10, Jobs: 4, TimeoutS: 900, MemMB: 3072},
+					{Name: "twins", Cases: c11r6NTwins, Chunk: 1, Exhaust: true, TimeoutS: 300, MemMB: 3072},
+					{Name: "numedge", Cases: c11r6NumsT.NumField(), Chunk: 2, Exhaust: true, TimeoutS: 600, MemMB: 3072},
 				},
 			}
 			if nConcRace > 0 {
@@ -2516,6 +2543,12 @@ func init() {
 				c11PhaseCbVar(c)
 			case "deepstore":
 				c11PhaseDeepStore(c)
+			case "gocall":
+				c11PhaseGoCall(c)
+			case "twins":
+				c11PhaseTwins(c)
+			case "numedge":
+				c11PhaseNumEdge(c)
 			}
 		},
 	})
